@@ -102,7 +102,7 @@ def render(case, idx, rng):
     pool = [p for p in pool if p not in magic]
     # names that are magic for OTHER derives are ordinary here (`vis` on a FromVariant receiver, `bounds` on a FromField one ..)
     foreign = [n for n in ["ident", "vis", "generics", "attrs", "data", "ty", "discriminant", "fields", "bounds"] if n not in magic and not (n == "attrs" and d != "FromMeta")]
-    if foreign and rng.random() < 0.8:
+    if foreign and (d in ("FromVariant", "FromTypeParam", "FromAttributes") or rng.random() < 0.4):
         pool.insert(rng.randrange(2), rng.choice(foreign))
     # container options
     copts = []
@@ -233,7 +233,12 @@ def main():
     for p in a.tlc_outputs:
         good = [c for c in tagged(p) if c["expect"]["impl"]]
         rng.shuffle(good)
-        cases += good[: a.max // len(a.tlc_outputs)]
+        # bodies with members exercise most of the generated code: two thirds of the sample
+        quota = a.max // len(a.tlc_outputs)
+        rich = [c for c in good if c["shape"] in ("named", "named_attrs", "enum")]
+        poor = [c for c in good if c["shape"] not in ("named", "named_attrs", "enum")]
+        take = rich[: (2 * quota) // 3]
+        cases += take + poor[: quota - len(take)]
     out = ["// @generated by tools/gen_c20.py", "#![allow(dead_code, non_snake_case, non_camel_case_types, unused_variables, clippy::all)]", ""]
     index = []
     line = len(out) + 1
